@@ -35,14 +35,16 @@ func (e *Executor) watchTasks(calls ...*Call) error {
 	ctx, cancel := context.WithCancel(context.Background())
 	for _, c := range calls {
 		c := c
-		go func() {
+		// The context is handed over as an argument: the variable is
+		// replaced by the event loop below on every watch event
+		go func(ctx context.Context) {
 			err := e.RunTask(ctx, c)
 			if err == nil {
 				e.Logger.Errf(logger.Green, "task: task \"%s\" finished running\n", c.Task)
 			} else if !isContextError(err) {
 				e.Logger.Errf(logger.Red, "%v\n", err)
 			}
-		}()
+		}(ctx)
 	}
 
 	var waitTime time.Duration
@@ -87,7 +89,7 @@ func (e *Executor) watchTasks(calls ...*Call) error {
 
 				for _, c := range calls {
 					c := c
-					go func() {
+					go func(ctx context.Context) {
 						t, err := e.GetTask(c)
 						if err != nil {
 							e.Logger.Errf(logger.Red, "%v\n", err)
@@ -110,7 +112,7 @@ func (e *Executor) watchTasks(calls ...*Call) error {
 						} else if !isContextError(err) {
 							e.Logger.Errf(logger.Red, "%v\n", err)
 						}
-					}()
+					}(ctx)
 				}
 			case err, ok := <-w.Errors:
 				switch {
